@@ -58,8 +58,8 @@ class Canon(object):
                         if r.k in ('un', 'ref', 'mem', 'idx'):
                             c = self.canon(dn.id, r, depth + 1)
                             if c is not None and not (r.k == 'ref' and r.refk not in ('VarDecl', 'ParmVarDecl')):
-                                # keep dependence on the alias variable itself too
-                                return (c[0], c[1] | frozenset([x.ref]), c[2], c[3])
+                                # the canonical string no longer mentions the alias variable
+                                return (c[0], c[1], c[2], c[3])
                 return (x.name, frozenset([x.ref]), frozenset(), False)
             if x.refk == 'ParmVarDecl':
                 al = self.palias.get(x.ref)
